@@ -1,6 +1,7 @@
 package props
 
 import (
+	"os"
 	"context"
 	"fmt"
 	"net"
@@ -136,6 +137,13 @@ func httpGet(w *world.World, lis *simnet.Listener, path string) (int, string) {
 	})
 	w.RunUntil(func() bool { return done }, 30*time.Second)
 	if !done {
+		if os.Getenv("SIM_TRACE") != "" {
+			rep, _ := blockedReport(w.S)
+			fmt.Fprintf(os.Stderr, "TRACE http probe unanswered; blocked tasks: %s\n", rep)
+			for _, t := range w.S.Tasks() {
+				fmt.Fprintf(os.Stderr, "TRACE   task %s state=%v op=%s\n", t, t.State(), t.OpLabel())
+			}
+		}
 		l.PeerReset()
 	}
 	code := -1
